@@ -15,7 +15,6 @@ import (
 	"strings"
 )
 
-
 func parseModelScalars(out string) map[string]string {
 	m := map[string]string{}
 	// join lines so that "(define-fun x () Int\n  5)" matches
